@@ -150,9 +150,33 @@ type grokGen struct {
 	all      []string            // every custom name defined anywhere (so calls can reference invisible ones)
 	feat     map[string]bool
 	nProbe   int
+	exs      []map[string][]string // per scope: examples of the definitions made in it
 }
 
 func (g *grokGen) n(l string, lo, hi int) int { return rapid.IntRange(lo, hi).Draw(g.t, l) }
+
+func (g *grokGen) push() {
+	g.visible = append(g.visible, nil)
+	g.exs = append(g.exs, map[string][]string{})
+}
+
+func (g *grokGen) pop() {
+	g.visible = g.visible[:len(g.visible)-1]
+	g.exs = g.exs[:len(g.exs)-1]
+}
+
+// ex returns the example subjects of the definition of name that is visible here (innermost scope first).
+func (g *grokGen) ex(name string) []string {
+	for i := len(g.exs) - 1; i >= 0; i-- {
+		if e, ok := g.exs[i][name]; ok {
+			return e
+		}
+	}
+	if e, ok := g.examples[name]; ok {
+		return e
+	}
+	return []string{"###"}
+}
 
 func (g *grokGen) visibleNames() []string {
 	var out []string
@@ -165,13 +189,19 @@ func (g *grokGen) visibleNames() []string {
 func (g *grokGen) addPattern() *gen.Node {
 	g.defined++
 	name := fmt.Sprintf("p%d", g.defined)
+	if len(g.all) > 0 && g.n("redefine", 0, 2) == 0 {
+		// an existing name again: redefined in the same block or shadowed in a nested one - the enclosing
+		// definition is back in force when the block ends
+		name = g.all[g.n("redefname", 0, len(g.all)-1)]
+		g.feat["pattern-name-redefined-or-shadowed"] = true
+	}
 	var regex string
 	var ex []string
 	vis := g.visibleNames()
 	if len(vis) > 0 && g.n("compose", 0, 2) == 0 {
 		base := vis[g.n("base", 0, len(vis)-1)]
 		regex = "%{" + base + "}"
-		ex = g.examples[base]
+		ex = g.ex(base)
 		g.feat["pattern-composed-of-custom"] = true
 	} else if g.n("useglobal", 0, 3) == 0 {
 		gl := globals[g.n("gl", 0, len(globals)-1)]
@@ -180,7 +210,8 @@ func (g *grokGen) addPattern() *gen.Node {
 		p := catalog[g.n("cat", 0, len(catalog)-1)]
 		regex, ex = p.regex, p.examples
 	}
-	g.examples[name] = ex
+	g.examples[name] = ex // fallback for references from where no definition is visible
+	g.exs[len(g.exs)-1][name] = ex
 	g.visible[len(g.visible)-1] = append(g.visible[len(g.visible)-1], name)
 	g.all = append(g.all, name)
 	return gen.NCall("add_pattern", str(name), str(regex))
@@ -213,7 +244,7 @@ func (g *grokGen) grokCall(fields map[string]any, tags map[string]string) []*gen
 					usedInvisible = true
 				}
 			}
-			ex = g.examples[name]
+			ex = g.ex(name)
 		default:
 			gl := globals[g.n("gl", 0, len(globals)-1)]
 			name, ex = gl.regex, gl.examples
@@ -286,23 +317,23 @@ func (g *grokGen) block(depth int, fields map[string]any, tags map[string]string
 			var blocks [][]*gen.Node
 			for b := 0; b < nb; b++ {
 				conds = append(conds, gen.NBool(g.n("condv", 0, 2) != 0))
-				g.visible = append(g.visible, nil)
+				g.push()
 				blocks = append(blocks, g.block(depth-1, fields, tags))
-				g.visible = g.visible[:len(g.visible)-1]
+				g.pop()
 			}
 			hasElse := g.n("else", 0, 1) == 0
 			var els []*gen.Node
 			if hasElse {
-				g.visible = append(g.visible, nil)
+				g.push()
 				els = g.block(depth-1, fields, tags)
-				g.visible = g.visible[:len(g.visible)-1]
+				g.pop()
 			}
 			g.feat["branch"] = true
 			out = append(out, gen.NIf(conds, blocks, els, hasElse))
 		case k == 8 && depth > 0:
-			g.visible = append(g.visible, nil)
+			g.push()
 			body := g.block(depth-1, fields, tags)
-			g.visible = g.visible[:len(g.visible)-1]
+			g.pop()
 			g.feat["loop"] = true
 			out = append(out, gen.NForIn("it", gen.NList(gen.NInt(1)), body))
 		default:
@@ -314,7 +345,7 @@ func (g *grokGen) block(depth int, fields map[string]any, tags map[string]string
 
 func TestGrokScopes(t *testing.T) {
 	rk.Check(t, "grok", 1, evid.Scale(2500, 20000), func(t *rapid.T) {
-		g := &grokGen{t: t, visible: [][]string{nil}, examples: map[string][]string{}, feat: map[string]bool{}}
+		g := &grokGen{t: t, visible: [][]string{nil}, exs: []map[string][]string{{}}, examples: map[string][]string{}, feat: map[string]bool{}}
 		fields := map[string]any{"keep": int64(1)}
 		tags := map[string]string{"keeptag": "kt"}
 		prog := g.block(rapid.IntRange(0, 3).Draw(t, "depth"), fields, tags)
@@ -324,7 +355,7 @@ func TestGrokScopes(t *testing.T) {
 		for f := range g.feat {
 			labels = append(labels, "grok/"+f)
 		}
-		nt := g.feat["typed-capture"] || g.feat["non-string-subject"] || (g.feat["custom-pattern"] && (g.feat["branch"] || g.feat["loop"])) || g.feat["invisible-pattern"]
+		nt := g.feat["pattern-name-redefined-or-shadowed"] || g.feat["typed-capture"] || g.feat["non-string-subject"] || (g.feat["custom-pattern"] && (g.feat["branch"] || g.feat["loop"])) || g.feat["invisible-pattern"]
 		v := judge(t, "grok", c, "grok:"+gen.ShapeAll(prog), nt, labels...)
 		if v != nil && nt {
 			evid.Sample(map[string]any{"script": c.Texts[c.Root], "fields": fmt.Sprint(c.Fields), "reference_fields": fmt.Sprint(v.Model.Pt.Fields())})
@@ -519,6 +550,13 @@ func TestXML(t *testing.T) {
 			doc = "plain text"
 		case 2:
 			doc = "<?xml version=\"1.0\"?>" + doc
+		case 3, 4:
+			// what may stand before the root element: a byte order mark, blanks, a declaration, a comment, a
+			// processing instruction, a DOCTYPE, plain text (a log line with an XML payload), and what may follow it
+			pre := rapid.SampledFrom([]string{"\ufeff", "\ufeff<?xml version=\"1.0\" encoding=\"UTF-8\"?>", " \n\t", "<!-- c -->", "<?pi x?>", "<!DOCTYPE a>", "2021-01-01 INFO payload=", "x", "\u00a0", "\r\n", "]]>", "&amp;"}).Draw(t, "prefix")
+			post := rapid.SampledFrom([]string{"", "", "\n", " trailing text", "<!-- end -->", "<b>second root</b>"}).Draw(t, "suffix")
+			doc = pre + doc + post
+			evid.Label("xml/prefixed-document")
 		}
 		xp := rapid.SampledFrom(xpaths).Draw(t, "xpath")
 		sit := rapid.SampledFrom([]string{"field", "field", "variable", "tag", "absent", "non-string"}).Draw(t, "situation")
